@@ -128,7 +128,7 @@ def g_cut(rng, ragged):
 @form('cutout', dup=True)
 def g_cutout(rng, ragged):
     t = _table(rng, ragged, dup=True)
-    return {'table': t, 'spec': _spec(rng, t[0], allow_dup=False)}
+    return {'table': t, 'spec': _spec(rng, t[0], allow_dup=False), 'missing': rng.choice([None, None, 'M', 0])}
 
 
 @form('movefield')
@@ -445,8 +445,11 @@ def j_cut(case, ctx, table, hdr, rows, tabs, frame):
 def j_cutout(case, ctx, table, hdr, rows, tabs, frame):
     out = resolve(hdr, case['spec'])
     keep = [i for i in range(len(hdr)) if i not in out]
-    exp = [tuple(hdr[i] for i in keep)] + [tuple(_get(r, i, WILD) for i in keep) for r in rows]
-    return _report(_run(lambda: petl.cutout(table, *case['spec'])), exp, 'cutout', case)
+    missing = case.get('missing')
+    # like cut: a kept cell that a short row lacks is filled with `missing` (the view takes the same keyword)
+    exp = [tuple(hdr[i] for i in keep)] + [tuple(_get(r, i, missing) for i in keep) for r in rows]
+    kw = {'missing': missing} if missing is not None else {}
+    return _report(_run(lambda: petl.cutout(table, *case['spec'], **kw)), exp, 'cutout', case)
 
 
 def j_movefield(case, ctx, table, hdr, rows, tabs, frame):
